@@ -219,6 +219,8 @@ class FunctionDefinition:
                 return None
             value = args[i]
             if value is utils.NO_VALUE:
+                if positional_args[i] is self.parameters.get('*'):
+                    return None
                 value = positional_args[i].default
             if not positional_args[i].value_type.check(value, context, engine):
                 return None
